@@ -25,7 +25,7 @@ RULE = (
     "Generated compilation units composing: nesting, imports with/without `as` and chains, types nested in messages of "
     "imported files, two-hop import paths, aliases/arrays of named types, empty messages and empty enums, file names "
     "different from proto names, message names ending in digits / starting with 'Array' with colliding field numbers, field "
-    "named `type`, options c.name_prefix, c.struct_packing_alignment over its whole accepted range 0..8, py.module_name; each "
+    "named `type`, files in sub-directories imported by relative paths, a file name with extra dots/dashes for the file nothing imports, schema text with comment text that is special in a target language (`*/`, trailing backslash, quotes, triple quotes, backslash-u ...), trailing comments, `;`-joined statements, no final newline, options c.name_prefix, c.struct_packing_alignment over its whole accepted range 0..8, py.module_name; each "
     "hazardous family is switched on independently with low probability so most cases are hazard-free and judged strictly. "
     "Every file of the unit is compiled for {c, c -O (traditional units), c -O -F subset, py, go}. Oracles: gcc -c accepts "
     "every generated .c; a C driver and a C++ driver (g++, same generated header) link against the C objects and print "
